@@ -64,6 +64,7 @@ for cap in (1, 2, 3, 4):
      ("FAIL", "async", "-", "err:-200"),
      ("CUST", "async", "-", "errc:42:" + hx("custom")),
      ("ARG", "async", "u8", "unit"),
+     ("NOTE", "sync", "str", "unit"),
     ])
 
 # ---- a queue larger than a byte can count ------------------------------------------------------------
@@ -74,6 +75,7 @@ iface("q300", "E", 300, "basic", [
  ("FAIL", "async", "-", "err:-200"),
  ("CUST", "async", "-", "errc:42:" + hx("custom")),
  ("ARG", "async", "u8", "unit"),
+ ("NOTE", "sync", "str", "unit"),
 ])
 
 # ---- the q3 commands on an interface whose own handlers carry the names of the built-in ones -------------
@@ -85,6 +87,7 @@ iface("k1", "SE", 3, "basic", [
  ("FAIL", "async", "-", "err:-200"),
  ("CUST", "async", "-", "errc:42:" + hx("custom")),
  ("ARG", "async", "u8", "unit"),
+ ("NOTE", "sync", "str", "unit"),
  ("DIAGnostic:ERRor:TOTal?", "sync", "-", "const:u8:200"),
  ("DIAGnostic:ERRor:LAST?", "sync", "-", "const:str:" + hx("none")),
  ("DIAGnostic:VERSion?", "sync", "-", "const:u16:7"),
